@@ -23,6 +23,7 @@ class Profile:
 
     quick_s = 22
     thorough_s = 480
+    eval_stats = ("evaluations",)     # which counters make up evidence.coverage.evaluations
 
     def budget(self, tier):
         return self.quick_s if tier == "quick" else self.thorough_s
@@ -189,6 +190,7 @@ class C03(Profile):
 
 class C04(C03):
     prop = "C04"
+    eval_stats = ('commutes_checked',)
     eval_new = False
     claims = {"commute_unsound": "C04"}
     dn_rule = ("in-run monitor: every commute() call the library makes while backtracking in the C03 workload is captured "
@@ -289,6 +291,7 @@ PROC_SITES = ("hook_before", "hook_after", "db_before", "db_mid", "db_after", "l
 
 class C07(Profile):
     prop = "C07"
+    eval_stats = ('process_ops', 'evaluations')
     level = "fault_enumeration"
     claims = {k: "C07" for k in ("rows_mismatch", "mutated", "transfer_payload_on_input", "process_changed_signature",
                                  "process_incomplete", "hook_bad_arg", "hook_on_trivial", "hook_recall", "bad_payload",
@@ -351,6 +354,7 @@ class C08(Profile):
 
 class C09(Profile):
     prop = "C09"
+    eval_stats = ('fingerprints_checked', 'rebuilds', 'twice')
     claims = {k: "C09" for k in ("mutated", "unhashable", "rebuild_not_equal", "rebuild_hash_differs",
                                  "compile_not_repeatable", "execute_not_repeatable")}
     track_fingerprints = True
@@ -377,6 +381,7 @@ class C09(Profile):
 
 class C10(Profile):
     prop = "C10"
+    eval_stats = ('evaluations', 'process_ops', 'payload_nodes_checked')
     level = "fault_enumeration"
     claims = {k: "C10" for k in ("payload_overwritten", "attach_not_rejected", "attach_wrong_exception", "attach_rejected",
                                  "attach_lost", "reevaluated", "hook_recall", "rows_mismatch")}
@@ -450,6 +455,7 @@ class C11(Profile):
 
 class C14(Profile):
     prop = "C14"
+    eval_stats = ('trees_walked',)
     claims = {k: "C14" for k in ("malformed_tree", "noop_not_identity")}
     dn_rule = ("histories over two or three engines with every preferred-engine option and an engine-restricted column "
                "function; every tree returned by a factory call or by process() is walked (target/lhs/rhs/skip_to) against the "
@@ -471,6 +477,7 @@ class C14(Profile):
 
 class C15(Profile):
     prop = "C15"
+    eval_stats = ('evaluations', 'locked_nodes_checked')
     claims = {k: "C15" for k in ("locked_rewritten", "redundant_materialization", "rows_mismatch", "engine_mismatch")}
     eval_new = True
     dn_rule = ("chains of transfers among up to three engines interleaved with operations and materializations (processed at "
@@ -500,6 +507,7 @@ class C15(Profile):
 
 class C16(Profile):
     prop = "C16"
+    eval_stats = ('diag:none', 'diag:truth', 'diag:real')
     claims = {k: "C16" for k in ("doomed_nonempty", "diag_inexact", "doomed_no_message", "diag_exception")}
     fault_sites = ("db_before", "db_after", "leaf_iter")
     fault_fraction = 0.2
@@ -537,6 +545,7 @@ class C16(Profile):
 
 class C17(Profile):
     prop = "C17"
+    eval_stats = ('conform_checked', 'raw_conformed', 'selects_checked')
     claims = {k: "C17" for k in ("factory_not_conformed", "conform_not_idempotent", "select_incoherent", "conform_exception",
                                  "rows_mismatch")}
     both_orders = True
@@ -568,6 +577,7 @@ class C17(Profile):
 
 class C18(Profile):
     prop = "C18"
+    eval_stats = ('iterate_ops', 'full_iterations')
     level = "fault_enumeration"
     claims = {k: "C18" for k in ("eager_leaf_iteration", "multiple_starts", "iteration_not_repeatable", "rows_mismatch",
                                  "no_recovery")}
@@ -601,6 +611,7 @@ class C18(Profile):
 
 class C20(Profile):
     prop = "C20"
+    eval_stats = ('ill:total',)
     claims = {k: "C20" for k in ("missing_rejection", "wrong_exception_class", "mutated")}
     track_fingerprints = True
     dn_rule = ("for calls the generator believes acceptable, single ill-typing edits (missing column in predicate / sort term / "
